@@ -637,6 +637,38 @@ def run_case(case, ctx):
         w, interior = _check_spatial(src, out, delta_used, ctx, cls)
     if w:
         return fail(w)
+    if mode in ("T-list", "T-track") and len(req) >= 1:
+        # call history: the SAME reference object (track or list of instants) is used for a second track whose time
+        # range reaches beyond the first one's on both sides; it must get every requested instant of ITS range
+        import math
+        first2 = min(req[0], tms[0]) - 5000
+        last2 = max(req[-1], tms[-1]) + 5000
+        if first2 >= 0:
+            k2 = (last2 - first2) / float(D)
+            tms2 = [first2 + int(math.floor((t - tms[0]) * k2 + 0.5)) for t in tms]
+            tms2[-1] = last2
+            if all(b > a for a, b in zip(tms2, tms2[1:])):
+                track2 = gen.make_track([tuple(p) for p in pts], tms2)
+                src2 = _read(track2)
+                if not M.is_raised(src2) and src2[3] == tms2:
+                    if case.get("entry") == "func":
+                        res2 = M.call(I.resample, track2, call_arg, I.ALGO_LINEAR, tl_mode)
+                    else:
+                        res2 = M.call(track2.resample, call_arg, I.ALGO_LINEAR, tl_mode)
+                    ctx.monitor("temporal.same_reference_second_track")
+                    cls.add("history_same_reference_object")
+                    if M.is_raised(res2):
+                        return fail({"what": "second resampling with the same reference object raised", "raised": res2,
+                                     "second_track_ms": tms2})
+                    out2 = _read(track2)
+                    if M.is_raised(out2):
+                        return fail({"what": "second resampled track cannot be read back", "raised": out2})
+                    w2, _ = _check_temporal(src2, out2, _expected_temporal(src2, case, None), ctx)
+                    if w2:
+                        w2["history"] = ("second track resampled with the SAME reference object as the first; its time "
+                                         "range contains the first one's")
+                        w2["second_track_ms"] = tms2
+                        return fail(w2)
     return held(sig, len(tms) >= 3 and interior, sorted(cls))
 
 
@@ -648,7 +680,8 @@ def classify(case, witness):
 
 # floors for the call-history workloads added in session 3 (a run in which they were silently skipped is inconclusive)
 _floors_base = floors
-_FLOORS_EXTRA = {'counters': {'numeric_step_lands_exactly_on_last': 50}}
+_FLOORS_EXTRA = {'counters': {'numeric_step_lands_exactly_on_last': 50},
+                 'monitors': {'temporal.same_reference_second_track': 1000}}
 
 
 def floors(tier):
